@@ -59,6 +59,66 @@ Proof.
     intros x y. rewrite H3, elem_of_visit by done. by rewrite elem_of_visit.
 Qed.
 
+(* ---- the specification of a history: one mathematical set per handle ---- *)
+Definition spec_op (Xs : list (gset Z)) (o : op) : option (list (gset Z) * out) :=
+  let one h (k : gset Z → list (gset Z) * out) :=
+    match Xs !! h with Some X => Some (k X) | None => None end in
+  let two h g (k : gset Z → gset Z → list (gset Z) * out) :=
+    if Nat.eqb h g then None else
+    match Xs !! h, Xs !! g with Some X, Some Y => Some (k X Y) | _, _ => None end in
+  match o with
+  | ONew _ => Some (Xs ++ [∅], VUnit)
+  | OFromSlice _ l => Some (Xs ++ [list_to_set l], VUnit)
+  | OFromKeys _ m => Some (Xs ++ [list_to_set (map fst m)], VUnit)
+  | OFromValues _ m => Some (Xs ++ [list_to_set (map snd m)], VUnit)
+  | OAdd h v => one h (λ X, (<[h := {[v]} ∪ X]> Xs, VBool (bool_decide (v ∉ X))))
+  | ORemove h v => one h (λ X, (<[h := X ∖ {[v]}]> Xs, VBool (bool_decide (v ∈ X))))
+  | OHas h v => one h (λ X, (Xs, VBool (bool_decide (v ∈ X))))
+  | OLen h _ => one h (λ X, (Xs, VInt (Z.of_nat (size X))))
+  | OSlice h o => one h (λ X, (Xs, VList (visit X o)))
+  | OString h o => one h (λ X, (Xs, VToks (toks_of (visit X o))))
+  | ORange h o j => one h (λ X, (Xs, VList (take_stop j (visit X o))))
+  | OClone h _ => one h (λ X, (Xs ++ [X], VUnit))
+  | OAddSet h g _ => two h g (λ X Y, (<[h := X ∪ Y]> Xs, VInt (Z.of_nat (size (Y ∖ X)))))
+  | ORemoveSet h g _ => two h g (λ X Y, (<[h := X ∖ Y]> Xs, VInt (Z.of_nat (size (X ∩ Y)))))
+  | OBin b h g _ _ => two h g (λ X Y, (Xs ++ [set_bin b X Y], VUnit))
+  | OCartesian h g oh og => two h g (λ X Y, (Xs, VPairs (cp_spec X Y oh og)))
+  end.
+
+(* the visit orders an operation is given are orders Go could have used: each
+   lists every member of the set it iterates exactly once (only where the
+   result could depend on it; Slice/String/Range/CartesianProduct are specified
+   for every order) *)
+Definition orders_ok (Xs : list (gset Z)) (o : op) : Prop :=
+  match o with
+  | OLen h o | OClone h o => ∀ X, Xs !! h = Some X → covers X o
+  | OAddSet h g og | ORemoveSet h g og => ∀ Y, Xs !! g = Some Y → covers Y og
+  | OBin _ h g oh og => (∀ X, Xs !! h = Some X → covers X oh) ∧ (∀ Y, Xs !! g = Some Y → covers Y og)
+  | _ => True
+  end.
+
+Fixpoint spec_ops (Xs : list (gset Z)) (ops : list op) : option (list (gset Z) * list out) :=
+  match ops with
+  | [] => Some (Xs, [])
+  | o :: ops' =>
+      match spec_op Xs o with
+      | None => None
+      | Some (Xs', v) =>
+          match spec_ops Xs' ops' with
+          | Some (Xs'', vs) => Some (Xs'', v :: vs)
+          | None => None
+          end
+      end
+  end.
+
+Fixpoint all_orders_ok (Xs : list (gset Z)) (ops : list op) : Prop :=
+  match ops with
+  | [] => True
+  | o :: ops' =>
+      orders_ok Xs o ∧
+      match spec_op Xs o with Some (Xs', _) => all_orders_ok Xs' ops' | None => True end
+  end.
+
 Section with_seq_proofs.
   Variable WF : mstate → Prop.
   Hypothesis SO : seq_ok WF.
@@ -232,7 +292,7 @@ Section with_seq_proofs.
   Proof.
     revert b acc. induction vs as [|va vs IH]; intros b acc Hwf; cbn [range_cb flat_map].
     - cbn. by rewrite app_nil_r.
-    - unfold cp_outer at 1.
+    - replace (cp_outer ob (b, acc) va) with (as_Range b (ob va) (cp_inner va) acc, true) by reflexivity.
       destruct (as_Range_spec b (ob va) (cp_inner va) acc Hwf) as (H1 & H2 & H3).
       destruct (as_Range b (ob va) (cp_inner va) acc) as [b' res]. cbn in H1, H2, H3. cbn iota beta.
       destruct (IH b' res H1) as (G1 & G2 & G3).
@@ -249,5 +309,150 @@ Section with_seq_proofs.
     destruct (as_Range a oa (cp_outer ob) (b, [])) as [a' [b' res]]. cbn in H1, H2, H3.
     destruct (cp_outer_spec ob (visit (abs a) oa) b [] Hwfb) as (G1 & G2 & G3).
     rewrite <-H3 in G1, G2, G3. cbn in *. done.
+  Qed.
+  (* ---- histories ---- *)
+  Definition rel (hs : list anyset) (Xs : list (gset Z)) : Prop :=
+    Forall2 (λ a X, WFa a ∧ abs a = X) hs Xs.
+
+  Lemma rel_lookup hs Xs h : rel hs Xs →
+    match Xs !! h with
+    | Some X => ∃ a, hs !! h = Some a ∧ WFa a ∧ abs a = X
+    | None => hs !! h = None
+    end.
+  Proof.
+    intros Hrel. destruct (Xs !! h) as [X|] eqn:E.
+    - destruct (Forall2_lookup_r _ _ _ _ _ Hrel E) as (a & Ha & Hwf & Habs). by exists a.
+    - apply lookup_ge_None. apply lookup_ge_None in E. by rewrite (Forall2_length _ _ _ Hrel).
+  Qed.
+
+  Lemma rel_upd hs Xs h a X : rel hs Xs → WFa a → abs a = X → rel (upd hs h a) (<[h := X]> Xs).
+  Proof. intros. by apply Forall2_insert. Qed.
+
+  Lemma rel_upd_same hs Xs h a X : rel hs Xs → Xs !! h = Some X → WFa a → abs a = X → rel (upd hs h a) Xs.
+  Proof. intros Hrel E ? ?. rewrite <-(list_insert_id Xs h X E). by apply rel_upd. Qed.
+
+  Lemma rel_snoc hs Xs a X : rel hs Xs → WFa a → abs a = X → rel (hs ++ [a]) (Xs ++ [X]).
+  Proof. intros. apply Forall2_app; [done|]. by constructor. Qed.
+
+  Lemma new_from_spec i ms (ss : result syncset) X :
+    ms = X → (∃ s, ss = Ok s ∧ WF s ∧ sabs s = X) →
+    ∃ a, new_from i ms ss = Ok a ∧ WFa a ∧ abs a = X.
+  Proof.
+    intros Hm (s & -> & Hwf & Hs). destruct i; cbn.
+    - by exists (AM ms).
+    - by exists (AS s).
+  Qed.
+
+  Lemma run_op_spec hs Xs o : rel hs Xs → orders_ok Xs o →
+    match spec_op Xs o with
+    | Some (Xs', v) => ∃ hs', run_op hs o = Some (Ok (hs', v)) ∧ rel hs' Xs'
+    | None => run_op hs o = None
+    end.
+  Proof.
+    intros Hrel Hord.
+    assert (Hone : ∀ h, match Xs !! h with
+                        | Some X => ∃ a, hs !! h = Some a ∧ WFa a ∧ abs a = X
+                        | None => hs !! h = None end) by (intros; by apply rel_lookup).
+    destruct o as [i|i l|i m|i m|h v|h v|h v|h o|h o|h o|h o j|h o|h g og|h g og|bo h g oh og|h g oh og];
+      cbn [spec_op run_op].
+    - (* new *) eexists. split; [done|]. apply rel_snoc; [done| |].
+      + destruct i; cbn; [done|apply (so_WF_empty WF SO)].
+      + destruct i; cbn; [done|]. apply (sabs_empty WF SO).
+    - destruct (new_from_spec i (ms_NewSetFromSlice l) (ss_NewSetFromSlice l) (list_to_set l)) as (a & E & H1 & H2);
+        [apply ms_NewSetFromSlice_spec|apply (ss_NewSetFromSlice_spec WF SO)|].
+      rewrite E. cbn. eexists. split; [done|]. by apply rel_snoc.
+    - destruct (new_from_spec i (ms_NewSetFromKeys m) (ss_NewSetFromKeys m) (list_to_set (map fst m))) as (a & E & H1 & H2);
+        [apply ms_NewSetFromKeys_spec|apply (ss_NewSetFromKeys_spec WF SO)|].
+      rewrite E. cbn. eexists. split; [done|]. by apply rel_snoc.
+    - destruct (new_from_spec i (ms_NewSetFromValues m) (ss_NewSetFromValues m) (list_to_set (map snd m))) as (a & E & H1 & H2);
+        [apply ms_NewSetFromValues_spec|apply (ss_NewSetFromValues_spec WF SO)|].
+      rewrite E. cbn. eexists. split; [done|]. by apply rel_snoc.
+    - (* add *) specialize (Hone h). destruct (Xs !! h) as [X|] eqn:EX; [|by rewrite Hone].
+      destruct Hone as (a & -> & Hwf & <-).
+      destruct (as_Add_spec a v Hwf) as (a' & E & H1 & H2). rewrite E. cbn.
+      eexists. split; [done|]. by apply rel_upd.
+    - (* remove *) specialize (Hone h). destruct (Xs !! h) as [X|] eqn:EX; [|by rewrite Hone].
+      destruct Hone as (a & -> & Hwf & <-).
+      destruct (as_Remove_spec a v Hwf) as (H1 & H2 & H3). destruct (as_Remove a v) as [a' b]. cbn in *. subst b.
+      eexists. split; [done|]. by apply rel_upd.
+    - (* has *) specialize (Hone h). destruct (Xs !! h) as [X|] eqn:EX; [|by rewrite Hone].
+      destruct Hone as (a & -> & Hwf & <-).
+      destruct (as_Has_spec a v Hwf) as (H1 & H2 & H3). destruct (as_Has a v) as [a' b]. cbn in *. subst b.
+      eexists. split; [done|]. by eapply rel_upd_same.
+    - (* len *) specialize (Hone h). destruct (Xs !! h) as [X|] eqn:EX; [|by rewrite Hone].
+      destruct Hone as (a & -> & Hwf & <-).
+      destruct (as_Len_spec a o Hwf (Hord _ eq_refl)) as (H1 & H2 & H3). destruct (as_Len a o) as [a' n]. cbn in *. subst n.
+      eexists. split; [done|]. by eapply rel_upd_same.
+    - (* slice *) specialize (Hone h). destruct (Xs !! h) as [X|] eqn:EX; [|by rewrite Hone].
+      destruct Hone as (a & -> & Hwf & <-).
+      destruct (as_Slice_spec a o Hwf) as (H1 & H2 & H3). destruct (as_Slice a o) as [a' n]. cbn in *. subst n.
+      eexists. split; [done|]. by eapply rel_upd_same.
+    - (* string *) specialize (Hone h). destruct (Xs !! h) as [X|] eqn:EX; [|by rewrite Hone].
+      destruct Hone as (a & -> & Hwf & <-).
+      destruct (as_String_spec a o Hwf) as (H1 & H2 & H3). destruct (as_String a o) as [a' n]. cbn in *. subst n.
+      eexists. split; [done|]. by eapply rel_upd_same.
+    - (* range *) specialize (Hone h). destruct (Xs !! h) as [X|] eqn:EX; [|by rewrite Hone].
+      destruct Hone as (a & -> & Hwf & <-).
+      destruct (as_Range_stop_spec a o j Hwf) as (H1 & H2 & H3 & _).
+      destruct (as_Range a o (stop_cb j) (0%nat, [])) as [a' [calls seen]]. cbn in *. subst seen.
+      eexists. split; [done|]. by eapply rel_upd_same.
+    - (* clone *) specialize (Hone h). destruct (Xs !! h) as [X|] eqn:EX; [|by rewrite Hone].
+      destruct Hone as (a & -> & Hwf & <-).
+      destruct (as_Clone_spec a o Hwf (Hord _ eq_refl)) as (a' & c & E & H1 & H2 & H3 & H4). rewrite E. cbn.
+      eexists. split; [done|]. apply rel_snoc; [|done|done]. by eapply rel_upd_same.
+    - (* addset *) destruct (Nat.eqb_spec h g) as [->|Hne]; [done|].
+      pose proof (Hone h) as Hh. pose proof (Hone g) as Hg.
+      destruct (Xs !! h) as [X|] eqn:EX; [|by rewrite Hh].
+      destruct Hh as (a & -> & Hwfa & <-).
+      destruct (Xs !! g) as [Y|] eqn:EY; [|by rewrite Hg].
+      destruct Hg as (b & -> & Hwfb & <-).
+      destruct (as_AddSet_spec a b og Hwfa Hwfb (Hord _ eq_refl)) as (a' & b' & E & H1 & H2 & H3 & H4). rewrite E. cbn.
+      eexists. split; [done|]. eapply rel_upd_same; [by apply rel_upd| |done|done].
+      by rewrite list_lookup_insert_ne.
+    - (* removeset *) destruct (Nat.eqb_spec h g) as [->|Hne]; [done|].
+      pose proof (Hone h) as Hh. pose proof (Hone g) as Hg.
+      destruct (Xs !! h) as [X|] eqn:EX; [|by rewrite Hh].
+      destruct Hh as (a & -> & Hwfa & <-).
+      destruct (Xs !! g) as [Y|] eqn:EY; [|by rewrite Hg].
+      destruct Hg as (b & -> & Hwfb & <-).
+      destruct (as_RemoveSet_spec a b og Hwfa Hwfb (Hord _ eq_refl)) as (a' & b' & E & H1 & H2 & H3 & H4). rewrite E. cbn.
+      eexists. split; [done|]. eapply rel_upd_same; [by apply rel_upd| |done|done].
+      by rewrite list_lookup_insert_ne.
+    - (* binary *) destruct (Nat.eqb_spec h g) as [->|Hne]; [done|].
+      pose proof (Hone h) as Hh. pose proof (Hone g) as Hg.
+      destruct (Xs !! h) as [X|] eqn:EX; [|by rewrite Hh].
+      destruct Hh as (a & -> & Hwfa & <-).
+      destruct (Xs !! g) as [Y|] eqn:EY; [|by rewrite Hg].
+      destruct Hg as (b & -> & Hwfb & <-).
+      destruct Hord as [Ho1 Ho2].
+      destruct (as_Bin_spec bo a b oh og Hwfa Hwfb (Ho1 _ eq_refl) (Ho2 _ eq_refl))
+        as (r & a' & b' & E & H1 & H2 & H3 & H4 & H5 & H6). rewrite E. cbn.
+      eexists. split; [done|]. apply rel_snoc; [|done|done].
+      eapply rel_upd_same; [by eapply rel_upd_same|done|done|done].
+    - (* cartesian *) destruct (Nat.eqb_spec h g) as [->|Hne]; [done|].
+      pose proof (Hone h) as Hh. pose proof (Hone g) as Hg.
+      destruct (Xs !! h) as [X|] eqn:EX; [|by rewrite Hh].
+      destruct Hh as (a & -> & Hwfa & <-).
+      destruct (Xs !! g) as [Y|] eqn:EY; [|by rewrite Hg].
+      destruct Hg as (b & -> & Hwfb & <-).
+      destruct (CartesianProduct_spec a b oh og Hwfa Hwfb) as (H1 & H2 & H3 & H4 & H5).
+      destruct (CartesianProduct a b oh og) as [[a' b'] l]. cbn in *. subst l.
+      eexists. split; [done|]. eapply rel_upd_same; [by eapply rel_upd_same|done|done|done].
+  Qed.
+
+  Theorem run_ops_spec ops : ∀ hs Xs, rel hs Xs → all_orders_ok Xs ops →
+    match spec_ops Xs ops with
+    | Some (Xs', vs) => ∃ hs', run_ops hs ops = Some (Ok (hs', vs)) ∧ rel hs' Xs'
+    | None => run_ops hs ops = None
+    end.
+  Proof.
+    induction ops as [|o ops IH]; intros hs Xs Hrel Hord; cbn [spec_ops run_ops].
+    - by exists hs.
+    - destruct Hord as [Ho Hrest]. pose proof (run_op_spec hs Xs o Hrel Ho) as Hstep.
+      destruct (spec_op Xs o) as [[Xs' v]|]; [|by rewrite Hstep].
+      destruct Hstep as (hs' & -> & Hrel').
+      specialize (IH hs' Xs' Hrel' Hrest).
+      destruct (spec_ops Xs' ops) as [[Xs'' vs]|]; [|by rewrite IH].
+      destruct IH as (hs'' & -> & Hrel''). by exists hs''.
   Qed.
 End with_seq_proofs.
